@@ -15,13 +15,24 @@ import (
 	"golang.org/x/tools/go/ssa"
 )
 
-// chainOf: the pass type names in the order the literal lists them.
-func chainOf(fn *ssa.Function) []string {
+// chainOf: the pass type names in the order the literal lists them; unconditional reports that every
+// pass of the list is put there on every path to a return (the store's block dominates every returning
+// block): a pass appended under a configuration-dependent branch is not part of "the chain".
+func chainOf(fn *ssa.Function) (chain []string, unconditional bool) {
 	type ent struct {
 		idx  int64
 		name string
 	}
 	var ents []ent
+	var rets []*ssa.BasicBlock
+	for _, b := range fn.Blocks {
+		if len(b.Instrs) > 0 {
+			if _, isRet := b.Instrs[len(b.Instrs)-1].(*ssa.Return); isRet {
+				rets = append(rets, b)
+			}
+		}
+	}
+	unconditional = true
 	for _, b := range fn.Blocks {
 		for _, in := range b.Instrs {
 			st, ok := in.(*ssa.Store)
@@ -49,6 +60,11 @@ func chainOf(fn *ssa.Function) []string {
 				continue
 			}
 			ents = append(ents, ent{c.Int64(), nt.Obj().Name()})
+			for _, r := range rets {
+				if !b.Dominates(r) {
+					unconditional = false
+				}
+			}
 		}
 	}
 	sort.Slice(ents, func(i, j int) bool { return ents[i].idx < ents[j].idx })
@@ -56,7 +72,7 @@ func chainOf(fn *ssa.Function) []string {
 	for _, e := range ents {
 		out = append(out, e.name)
 	}
-	return out
+	return out, unconditional
 }
 
 func indexOf(xs []string, x string) int {
@@ -83,11 +99,13 @@ func (e *Engine) chainResult() *FuncResult {
 		key := "jennies/" + l + ".(*Language).CompilerPasses"
 		fn := e.fnByKey[key]
 		var ch []string
+		uncond := false
 		if fn != nil {
-			ch = chainOf(fn)
+			ch, uncond = chainOf(fn)
 		}
 		chains[l] = ch
 		ctx.addOblig("chain", l+":chain-is-a-literal-list", BoolLit(len(ch) > 0), "internal/jennies/"+l+"/jennies.go")
+		ctx.addOblig("chain", l+":every-pass-of-the-chain-runs-whatever-the-configuration", BoolLit(uncond), "internal/jennies/"+l+"/jennies.go")
 	}
 	need := func(l, pass, why string) int {
 		i := indexOf(chains[l], pass)
